@@ -590,13 +590,19 @@ func (e *clientEngine) serve(req []byte) {
 		case 2:
 			pad = 700 + r.Choose(290, "resp-pad-big")
 		}
-		setters := []stun.Setter{stun.NewTransactionIDSetter(m.TransactionID), stun.BindingSuccess,
-			&stun.XORMappedAddress{IP: []byte{10, 0, 0, byte(1 + i)}, Port: 1000 + len(e.pending)}}
+		setters := []stun.Setter{stun.NewTransactionIDSetter(m.TransactionID), stun.BindingSuccess}
+		if !r.Pct(15, "resp-header-only") {
+			setters = append(setters, &stun.XORMappedAddress{IP: []byte{10, 0, 0, byte(1 + i)}, Port: 1000 + len(e.pending)})
+		}
 		if pad > 0 {
 			setters = append(setters, stun.NewSoftware(strings.Repeat("s", pad%700)))
 			if pad >= 700 {
 				setters = append(setters, stun.NewRealm(strings.Repeat("r", 700)))
 			}
+		}
+		// a varying number of further attributes
+		for j, n := 0, r.Pick([]int{6, 2, 1, 1, 1}, "resp-extra-attrs"); j < n; j++ {
+			setters = append(setters, stun.RawAttribute{Type: stun.AttrType(0x8200 + j), Value: []byte{byte(j), 1, 2, 3, 4}[:1+j]})
 		}
 		resp, err := stun.Build(setters...)
 		if err != nil {
